@@ -91,6 +91,18 @@ Theorem C19_mkdirall_creates_ancestors_patched : forall fuel s p s',
 Proof. intros fuel s p s' Hwf. apply mkdirall_creates_ancestors; [exact Hwf | left; reflexivity]. Qed.
 Print Assumptions C19_mkdirall_creates_ancestors_patched.
 
+(* ... and the code of /repo as it is NOW (the switch is regenerated from sftpfs/sftp.go on every
+   check): the full statement, no hypothesis about what the path names.  Reverting the repair makes
+   the switch 0 and this obligation fail. *)
+Theorem C19_mkdirall_creates_ancestors : forall fuel s p s',
+  wf (sv_tree s) -> fs_mkdirall (Z.eqb sftp_mkdirall_enotdir 1) fuel s p = (s', ROk) ->
+  forall a rest, skey p = a ++ rest -> is_dir s' a.
+Proof.
+  intros fuel s p s' Hwf H. change (Z.eqb sftp_mkdirall_enotdir 1) with true in H.
+  exact (C19_mkdirall_creates_ancestors_patched fuel s p s' Hwf H).
+Qed.
+Print Assumptions C19_mkdirall_creates_ancestors.
+
 Theorem C19_mkdirall_on_file_reports_ok : forall fuel s p i,
   lfetch (sv_tree s) (skey p) = Some (SfFile i) -> fs_mkdirall false fuel s p = (s, ROk).
 Proof. exact mkdirall_on_file_reports_ok. Qed.
